@@ -12,6 +12,9 @@ from ..prng import Rng, derive
 from ..values import num, s, cls, inst, tup, match, first_diff, ERROR_KINDS
 from ..core import process_outcome, Stats, stable_hash
 
+import os
+MC_EVERY = int(os.environ.get("VERIF_MEMCHECK_EVERY", "128"))      # exploration knob: 1 = every case also runs under valgrind
+
 # ---- fault kinds --------------------------------------------------------------------------------
 # host kinds: the fault-point native returns Err(kind) -> must arrive as an instance of the class.
 HOST_KINDS = ERROR_KINDS + ["CompileError"]
@@ -1019,7 +1022,7 @@ class C08:
             # a slice of the plans also runs with collect-at-every-allocation + quarantine: values in flight (thrown objects,
             # returned objects parked while a finally block runs) must survive
             runs.append(("checked+hooks", {"gc": {"mode": "always", "quarantine": True}}))
-        if key % 128 == 1 or sc.get("force_mc_slice"):
+        if key % MC_EVERY == 1 % MC_EVERY or sc.get("force_mc_slice"):
             # ... and a smaller one in the optimised build collecting at every allocation, under valgrind
             runs.append(("release+debug_stress_gc@memcheck", None))
         for config, cfg in runs:
